@@ -237,6 +237,38 @@ func init() {
 		return out
 	}
 
+	natives[cidPkg+".Cast"] = func(m *Machine, c *frame, fn *ssa.Function, a []Value) Value {
+		bs, _ := a[0].([]Value)
+		buf := make([]byte, len(bs))
+		for i, b := range bs {
+			t := m.term(b)
+			if !t.Const {
+				m.unsupported("cid.Cast of symbolic bytes")
+			}
+			buf[i] = byte(t.U)
+		}
+		ok := false
+		if len(buf) == 34 && buf[0] == 0x12 && buf[1] == 0x20 {
+			ok = true
+		} else if ver, n := uvarint(buf); n > 0 && ver == 1 {
+			if _, n2 := uvarint(buf[n:]); n2 > 0 && validMultihash(buf[n+n2:]) {
+				ok = true
+			}
+		}
+		if !ok {
+			return Tuple{m.cidValue(sym.Str("")), m.newErrorString(sym.Str("invalid cid bytes"))}
+		}
+		return Tuple{m.cidValue(sym.Str(string(buf))), Iface{}}
+	}
+	// protobuf: proto.Marshal/Unmarshal are the identity on the message; the
+	// produced bytes are a handle that survives copying
+	natives["github.com/golang/protobuf/proto.Marshal"] = stubProtoMarshal
+	natives["google.golang.org/protobuf/proto.Marshal"] = stubProtoMarshal
+	natives["github.com/gogo/protobuf/proto.Marshal"] = stubProtoMarshal
+	natives["github.com/golang/protobuf/proto.Unmarshal"] = stubProtoUnmarshal
+	natives["google.golang.org/protobuf/proto.Unmarshal"] = stubProtoUnmarshal
+	natives["github.com/gogo/protobuf/proto.Unmarshal"] = stubProtoUnmarshal
+
 	peerStr := func(m *Machine, c *frame, fn *ssa.Function, a []Value) Value {
 		s := m.term(a[0])
 		if s.Const {
@@ -337,14 +369,28 @@ func init() {
 	wrapBase10("strconv.ParseInt", strconv.ParseInt, parseU(true))
 	natives["strconv.Atoi"] = goNative("strconv.Atoi", strconv.Atoi, parseU(true))
 	wrapBase10("strconv.FormatUint", strconv.FormatUint, func(m *Machine, c *frame, fn *ssa.Function, a []Value) Value {
-		return sym.UF("uf_fmtu", sym.StrSort, m.term(a[0]))
+		return m.fmtTerm(m.term(a[0]), false)
 	})
 	wrapBase10("strconv.FormatInt", strconv.FormatInt, func(m *Machine, c *frame, fn *ssa.Function, a []Value) Value {
-		return sym.UF("uf_fmti", sym.StrSort, m.term(a[0]))
+		return m.fmtTerm(m.term(a[0]), true)
 	})
 	natives["strconv.Itoa"] = goNative("strconv.Itoa", strconv.Itoa, func(m *Machine, c *frame, fn *ssa.Function, a []Value) Value {
-		return sym.UF("uf_fmti", sym.StrSort, m.term(a[0]))
+		return m.fmtTerm(m.term(a[0]), true)
 	})
+}
+
+// fmtTerm builds the decimal rendering of a symbolic integer together with the
+// facts every such rendering satisfies: it is not empty and parses back.
+func (m *Machine) fmtTerm(v *sym.Term, signed bool) *sym.Term {
+	name, okN, valN := "uf_fmtu", "uf_pu_ok", "uf_pu_val"
+	if signed {
+		name, okN, valN = "uf_fmti", "uf_pi_ok", "uf_pi_val"
+	}
+	t := sym.UF(name, sym.StrSort, v)
+	m.assertPC(sym.Not(sym.Eq(t, sym.Str(""))))
+	m.assertPC(sym.UF(okN, sym.BoolSort, t))
+	m.assertPC(sym.Eq(sym.UF(valN, sym.BV(64), t), v))
+	return t
 }
 
 // fmtIntArg renders "%d" of a symbolic integer as the inverse-pair encoder.
@@ -371,8 +417,117 @@ func (m *Machine) fmtIntArg(v Value) (*sym.Term, bool) {
 	if w != 64 {
 		t = sym.Resize(t, 64, signed)
 	}
-	if signed {
-		return sym.UF("uf_fmti", sym.StrSort, t), true
+	return m.fmtTerm(t, signed), true
+}
+
+func stubProtoMarshal(m *Machine, c *frame, fn *ssa.Function, a []Value) Value {
+	msg, _ := a[0].(Iface)
+	if msg.T == nil {
+		return Tuple{[]Value(nil), m.newErrorString(sym.Str("proto: Marshal called with nil"))}
 	}
-	return sym.UF("uf_fmtu", sym.StrSort, t), true
+	p, ok := msg.V.(*Value)
+	if !ok || p == nil {
+		m.unsupported("proto.Marshal of %T", msg.V)
+	}
+	m.protoMsgs = append(m.protoMsgs, protoMsg{T: msg.T, V: copyValDeep(*p)})
+	id := uint64(len(m.protoMsgs))
+	out := make([]Value, 9)
+	out[0] = sym.BVConst(8, 0xA7) // handle marker
+	for i := 0; i < 8; i++ {
+		out[1+i] = sym.BVConst(8, (id>>(8*uint(7-i)))&0xff)
+	}
+	return Tuple{out, Iface{}}
+}
+
+func stubProtoUnmarshal(m *Machine, c *frame, fn *ssa.Function, a []Value) Value {
+	bs, _ := a[0].([]Value)
+	msg, _ := a[1].(Iface)
+	bad := func() Value { return m.newErrorString(sym.Str("proto: cannot parse invalid wire-format data")) }
+	if len(bs) == 0 {
+		// empty input is the empty message
+		if p, ok := msg.V.(*Value); ok && p != nil {
+			store(p, zero(msg.T.Underlying().(*types.Pointer).Elem()))
+		}
+		return Iface{}
+	}
+	if len(bs) != 9 {
+		return bad()
+	}
+	var id uint64
+	for i, b := range bs {
+		t := m.term(b)
+		if !t.Const {
+			m.unsupported("proto.Unmarshal of symbolic bytes")
+		}
+		if i == 0 {
+			if t.U != 0xA7 {
+				return bad()
+			}
+			continue
+		}
+		id = id<<8 | t.U
+	}
+	if id == 0 || id > uint64(len(m.protoMsgs)) {
+		return bad()
+	}
+	src := m.protoMsgs[id-1]
+	if msg.T == nil || !types.Identical(msg.T, src.T) {
+		return bad()
+	}
+	store(msg.V.(*Value), copyValDeep(src.V))
+	return Iface{}
+}
+
+type protoMsg struct {
+	T types.Type
+	V Value
+}
+
+// copyValDeep copies aggregates and also slices, maps and pointed-to structs
+// (a serialised message shares nothing with the original).
+func copyValDeep(v Value) Value {
+	switch v := v.(type) {
+	case Struct:
+		c := make(Struct, len(v))
+		for i, f := range v {
+			c[i] = copyValDeep(f)
+		}
+		return c
+	case Array:
+		c := make(Array, len(v))
+		for i, f := range v {
+			c[i] = copyValDeep(f)
+		}
+		return c
+	case []Value:
+		if v == nil {
+			return v
+		}
+		c := make([]Value, len(v))
+		for i, f := range v {
+			c[i] = copyValDeep(f)
+		}
+		return c
+	case *Map:
+		if v == nil {
+			return v
+		}
+		c := &Map{KeyT: v.KeyT}
+		for _, e := range v.entries {
+			if !e.deleted {
+				c.entries = append(c.entries, &mapEntry{key: copyValDeep(e.key), val: copyValDeep(e.val)})
+			}
+		}
+		return c
+	case *Value:
+		if v == nil {
+			return v
+		}
+		p := new(Value)
+		*p = copyValDeep(*v)
+		return p
+	case Iface:
+		return Iface{T: v.T, V: copyValDeep(v.V)}
+	}
+	return v
 }
